@@ -23,6 +23,7 @@ import (
 	"crypto/x509/pkix"
 	"errors"
 	"fmt"
+	"hash/fnv"
 	"io"
 	"math/big"
 	"math/rand"
@@ -140,7 +141,7 @@ func runRound(rng *rand.Rand, scen string, round int, ops []op, min, max int, al
 	}
 	sort.Strings(names)
 	fmt.Printf("round %s %d ops=%s\n", scen, round, strings.Join(names, ","))
-	counting = round == 0
+	counting = round == 0 || os.Getenv("C10_COUNT_ALL") != "" // debugging aid: count the successes of every round
 	start := make(chan struct{})
 	var wg sync.WaitGroup
 	for _, o := range picked {
@@ -187,6 +188,10 @@ type broker struct {
 	extraRecs  int         // records per fetch response beyond 4
 	nodes      []int32     // current broker ids of the cluster layout (nil: the single broker 1); guarded by mu
 	tlsServer  *tls.Config // non-nil: the broker end of every connection speaks TLS
+	maxProduce int16       // > 0: the highest Produce version ApiVersions offers (2 = a 0.10.x broker: message sets)
+	maxFetch   int16       // > 0: the highest Fetch version offered (2: message-set responses; 5; 10)
+	maxMeta    int16       // > 0: the highest Metadata version offered (1; 6)
+	maxJoin    int16       // > 0: the highest JoinGroup version offered (1; 2: response with a throttle time)
 }
 
 // groupCoord is a small multi-member group coordinator (scaffolding): a JoinGroup or LeaveGroup starts a
@@ -406,16 +411,31 @@ func (b *broker) serve(c net.Conn) {
 		var resp protocol.Message
 		switch r := msg.(type) {
 		case *apiversions.Request:
+			maxProduce := int16(7)
+			if b.maxProduce > 0 {
+				maxProduce = b.maxProduce
+			}
+			maxFetch, maxMeta := int16(10), int16(6)
+			if b.maxFetch > 0 {
+				maxFetch = b.maxFetch
+			}
+			if b.maxMeta > 0 {
+				maxMeta = b.maxMeta
+			}
+			maxJoin := int16(1)
+			if b.maxJoin > 0 {
+				maxJoin = b.maxJoin
+			}
 			resp = &apiversions.Response{ApiKeys: []apiversions.ApiKeyResponse{
-				{ApiKey: int16(protocol.Produce), MinVersion: 0, MaxVersion: 7},
-				{ApiKey: int16(protocol.Fetch), MinVersion: 0, MaxVersion: 10},
+				{ApiKey: int16(protocol.Produce), MinVersion: 0, MaxVersion: maxProduce},
+				{ApiKey: int16(protocol.Fetch), MinVersion: 0, MaxVersion: maxFetch},
 				{ApiKey: int16(protocol.ListOffsets), MinVersion: 1, MaxVersion: 1},
-				{ApiKey: int16(protocol.Metadata), MinVersion: 0, MaxVersion: 6},
+				{ApiKey: int16(protocol.Metadata), MinVersion: 0, MaxVersion: maxMeta},
 				{ApiKey: int16(protocol.ApiVersions), MinVersion: 0, MaxVersion: 0},
 				{ApiKey: int16(protocol.OffsetCommit), MinVersion: 0, MaxVersion: 2},
 				{ApiKey: int16(protocol.OffsetFetch), MinVersion: 0, MaxVersion: 1},
 				{ApiKey: int16(protocol.FindCoordinator), MinVersion: 0, MaxVersion: 0},
-				{ApiKey: int16(protocol.JoinGroup), MinVersion: 0, MaxVersion: 1},
+				{ApiKey: int16(protocol.JoinGroup), MinVersion: 0, MaxVersion: maxJoin},
 				{ApiKey: int16(protocol.Heartbeat), MinVersion: 0, MaxVersion: 0},
 				{ApiKey: int16(protocol.LeaveGroup), MinVersion: 0, MaxVersion: 0},
 				{ApiKey: int16(protocol.SyncGroup), MinVersion: 0, MaxVersion: 0},
@@ -525,6 +545,10 @@ func (b *broker) serve(c net.Conn) {
 			resp = out
 		case *fetch.Request:
 			out := &fetch.Response{}
+			setVersion := int8(2)
+			if v < 4 {
+				setVersion = 1 // Fetch v0–v3: message sets (magic 1), what the v2 path of Conn.ReadBatchWith parses
+			}
 			for _, t := range r.Topics {
 				rt := fetch.ResponseTopic{Topic: t.Topic}
 				for _, p := range t.Partitions {
@@ -540,7 +564,7 @@ func (b *broker) serve(c net.Conn) {
 						time.Sleep(5 * time.Millisecond) // empty long-poll
 					}
 					rt.Partitions = append(rt.Partitions, fetch.ResponsePartition{Partition: p.Partition, HighWatermark: hwm, LastStableOffset: hwm,
-						RecordSet: protocol.RecordSet{Version: 2, Records: protocol.NewRecordReader(recs...)}})
+						RecordSet: protocol.RecordSet{Version: setVersion, Records: protocol.NewRecordReader(recs...)}})
 				}
 				out.Topics = append(out.Topics, rt)
 			}
@@ -624,6 +648,16 @@ func (f *fakeRT) RoundTrip(ctx context.Context, addr net.Addr, req kafka.Request
 // ---------------------------------------------------------------------------------------------
 // scenarios
 
+// a user-supplied logger (goroutine-safe, as the Logger documentation requires): turns on the logging branches
+var logged int64
+
+func logger(rng *rand.Rand) kafka.Logger {
+	if rng.Intn(2) == 0 {
+		return nil
+	}
+	return kafka.LoggerFunc(func(string, ...interface{}) { atomic.AddInt64(&logged, 1) })
+}
+
 func msgs(rng *rand.Rand, n int) []kafka.Message {
 	out := make([]kafka.Message, n)
 	for i := range out {
@@ -638,11 +672,19 @@ func scenBalancers(rng *rand.Rand, rounds int) {
 			"RoundRobin": &kafka.RoundRobin{ChunkSize: rng.Intn(3)}, "LeastBytes": &kafka.LeastBytes{}, "Hash": &kafka.Hash{},
 			"ReferenceHash": &kafka.ReferenceHash{}, "CRC32Balancer": kafka.CRC32Balancer{Consistent: rng.Intn(2) == 0},
 			"Murmur2Balancer": kafka.Murmur2Balancer{Consistent: rng.Intn(2) == 0},
+			// the non-default configuration: a user-supplied hasher shared by every call (the reason Hash.lock /
+			// ReferenceHash.lock exist; with the default nil Hasher a pooled fnv hasher is used and nothing is shared)
+			"Hash(Hasher)": &kafka.Hash{Hasher: fnv.New32a()}, "ReferenceHash(Hasher)": &kafka.ReferenceHash{Hasher: fnv.New32()},
 		}
+		also("Hash(Hasher).Balance", "Hash.Balance")
+		also("ReferenceHash(Hasher).Balance", "ReferenceHash.Balance")
 		var ops []op
 		for name, b := range bals {
 			name, b := name, b
 			ms := msgs(rng, 8)
+			if i%3 == 0 {
+				ms[rng.Intn(len(ms))].Key = nil // nil keys take the round-robin / random path of the hash balancers
+			}
 			nparts := 1 + rng.Intn(6)
 			ops = append(ops, op{name + ".Balance", func() {
 				parts := make([]int, nparts)
@@ -664,13 +706,28 @@ func scenWriter(rng *rand.Rand, rounds int) {
 		rt := &fakeRT{parts: 1 + rng.Intn(3), delay: time.Duration(rng.Intn(3)) * time.Millisecond, fail: int32(rng.Intn(4))}
 		var completions int64
 		w := &kafka.Writer{Addr: kafka.TCP("fake:9092"), Topic: "t", Transport: rt, BatchTimeout: time.Duration(1+rng.Intn(5)) * time.Millisecond,
-			BatchSize: 1 + rng.Intn(4), RequiredAcks: kafka.RequireOne, Async: rng.Intn(3) == 0, MaxAttempts: 3,
+			BatchSize: 1 + rng.Intn(4), RequiredAcks: []kafka.RequiredAcks{kafka.RequireOne, kafka.RequireAll, kafka.RequireOne, kafka.RequireNone}[rng.Intn(4)], Async: rng.Intn(3) == 0, MaxAttempts: 3,
+			Logger: logger(rng), ErrorLogger: logger(rng), BatchBytes: int64([]int{0, 64, 1 << 20}[rng.Intn(3)]),
+			Compression:     []kafka.Compression{0, kafka.Snappy, kafka.Gzip, kafka.Lz4, kafka.Zstd}[rng.Intn(5)],
 			WriteBackoffMin: time.Millisecond, WriteBackoffMax: 2 * time.Millisecond}
 		switch rng.Intn(3) {
 		case 0:
 			w.Balancer = &kafka.LeastBytes{}
 		case 1:
-			w.Balancer = &kafka.Hash{}
+			switch rng.Intn(6) {
+			case 0:
+				w.Balancer = &kafka.Hash{}
+			case 1:
+				w.Balancer = &kafka.Hash{Hasher: fnv.New32a()}
+			case 2:
+				w.Balancer = &kafka.ReferenceHash{Hasher: fnv.New32()}
+			case 3:
+				w.Balancer = &kafka.ReferenceHash{}
+			case 4:
+				w.Balancer = kafka.CRC32Balancer{Consistent: rng.Intn(2) == 0}
+			default:
+				w.Balancer = kafka.Murmur2Balancer{Consistent: rng.Intn(2) == 0}
+			}
 		}
 		if rng.Intn(2) == 0 {
 			w.Completion = func(m []kafka.Message, err error) { atomic.AddInt64(&completions, int64(len(m))) }
@@ -892,7 +949,7 @@ func scenReaderFront(rng *rand.Rand, rounds int) {
 		d := &kafka.Dialer{DialFunc: func(ctx context.Context, network, address string) (net.Conn, error) {
 			return nil, errors.New("fake: no broker")
 		}}
-		r := kafka.NewReader(kafka.ReaderConfig{Brokers: []string{"fake:9092"}, Topic: "t", Partition: 0, Dialer: d, MaxWait: 10 * time.Millisecond,
+		r := kafka.NewReader(kafka.ReaderConfig{Brokers: []string{"fake:9092"}, Logger: logger(rng), ErrorLogger: logger(rng), Topic: "t", Partition: 0, Dialer: d, MaxWait: 10 * time.Millisecond,
 			ReadBackoffMin: time.Millisecond, ReadBackoffMax: 2 * time.Millisecond, ReadLagInterval: time.Duration(rng.Intn(2)) * 5 * time.Millisecond})
 		ops := readerOps(rng, r, 15*time.Millisecond)
 		if i%2 == 0 {
@@ -945,7 +1002,7 @@ func scenReader(rng *rand.Rand, rounds int) {
 	for i := 0; i < rounds; i++ {
 		b := newBroker("t", 1, 6+rng.Intn(6))
 		d := &kafka.Dialer{DialFunc: func(ctx context.Context, network, address string) (net.Conn, error) { return b.dial(), nil }}
-		r := kafka.NewReader(kafka.ReaderConfig{Brokers: []string{"fake:9092"}, Topic: "t", Partition: 0, Dialer: d, MinBytes: 1, MaxBytes: 1 << 20,
+		r := kafka.NewReader(kafka.ReaderConfig{Brokers: []string{"fake:9092"}, Logger: logger(rng), ErrorLogger: logger(rng), Topic: "t", Partition: 0, Dialer: d, MinBytes: 1, MaxBytes: 1 << 20,
 			MaxWait: 20 * time.Millisecond, ReadBackoffMin: time.Millisecond, ReadBackoffMax: 2 * time.Millisecond, QueueCapacity: 1 + rng.Intn(4)})
 		ops := readerOps(rng, r, 100*time.Millisecond)
 		if i%2 == 0 {
@@ -964,9 +1021,10 @@ func scenReaderGroup(rng *rand.Rand, rounds int) {
 	also("Reader.Stats", "Reader.Offset", "Reader.Lag", "Reader.SetOffset", "Reader.Config")
 	for i := 0; i < rounds; i++ {
 		b := newBroker("t", 2, 5+rng.Intn(5))
+		b.maxJoin, b.maxFetch, b.maxMeta = []int16{1, 2}[i%2], []int16{10, 5, 2}[(i/2)%3], []int16{6, 1}[(i/3)%2]
 		d := &kafka.Dialer{DialFunc: func(ctx context.Context, network, address string) (net.Conn, error) { return b.dial(), nil }}
 		commitEvery := time.Duration(rng.Intn(2)) * 5 * time.Millisecond
-		r := kafka.NewReader(kafka.ReaderConfig{Brokers: []string{"fake:9092"}, GroupID: "g", Topic: "t", Dialer: d, MinBytes: 1, MaxBytes: 1 << 20,
+		r := kafka.NewReader(kafka.ReaderConfig{Brokers: []string{"fake:9092"}, Logger: logger(rng), ErrorLogger: logger(rng), GroupID: "g", Topic: "t", Dialer: d, MinBytes: 1, MaxBytes: 1 << 20,
 			MaxWait: 20 * time.Millisecond, ReadBackoffMin: time.Millisecond, ReadBackoffMax: 2 * time.Millisecond, QueueCapacity: 1 + rng.Intn(4),
 			HeartbeatInterval: 10 * time.Millisecond, CommitInterval: commitEvery, JoinGroupBackoff: 5 * time.Millisecond,
 			SessionTimeout: 2 * time.Second, RebalanceTimeout: 2 * time.Second, PartitionWatchInterval: 20 * time.Millisecond, WatchPartitionChanges: rng.Intn(2) == 0})
@@ -1010,11 +1068,13 @@ func scenReaderRebalance(rng *rand.Rand, rounds int) {
 	also("NewReader+Reader.FetchMessage", "Reader.FetchMessage", "Reader.Close")
 	for i := 0; i < rounds; i++ {
 		b := newBroker("t", 3, 4+rng.Intn(4))
+		b.maxJoin = []int16{2, 1}[i%2]
 		b.group = newGroupCoord()
 		d := &kafka.Dialer{DialFunc: func(ctx context.Context, network, address string) (net.Conn, error) { return b.dial(), nil }}
 		commitEvery := time.Duration(rng.Intn(2)) * 5 * time.Millisecond
+		lg, elg := logger(rng), logger(rng) // mk runs inside operations: no rng there
 		mk := func() *kafka.Reader {
-			return kafka.NewReader(kafka.ReaderConfig{Brokers: []string{"fake:9092"}, GroupID: "g", Topic: "t", Dialer: d, MinBytes: 1, MaxBytes: 1 << 20,
+			return kafka.NewReader(kafka.ReaderConfig{Brokers: []string{"fake:9092"}, Logger: lg, ErrorLogger: elg, GroupID: "g", Topic: "t", Dialer: d, MinBytes: 1, MaxBytes: 1 << 20,
 				MaxWait: 20 * time.Millisecond, ReadBackoffMin: time.Millisecond, ReadBackoffMax: 2 * time.Millisecond, QueueCapacity: 2,
 				HeartbeatInterval: 10 * time.Millisecond, CommitInterval: commitEvery, JoinGroupBackoff: 5 * time.Millisecond,
 				SessionTimeout: 2 * time.Second, RebalanceTimeout: 2 * time.Second})
@@ -1060,6 +1120,46 @@ func scenReaderRebalance(rng *rand.Rand, rounds int) {
 }
 
 // Conn + Batch over net.Pipe
+// scenConnProduce: the write side of a Conn against brokers of three generations — ApiVersions offers Produce up to
+// v7, v3 or v2, which selects the three request builders of Conn.writeCompressedMessages (v2: message sets, only
+// taken against 0.10.x brokers) — with every option setter of the write path running concurrently.
+func scenConnProduce(rng *rand.Rand, rounds int) {
+	also("Conn.WriteMessages", "Conn.WriteCompressedMessages")
+	also("Conn.Write", "Conn.WriteCompressedMessages")
+	also("Conn.WriteCompressedMessagesAt", "Conn.WriteCompressedMessages")
+	for i := 0; i < rounds; i++ {
+		b := newBroker("t", 1, 4)
+		b.maxProduce = []int16{2, 3, 7}[i%3]
+		c := kafka.NewConn(b.dial(), "t", 0)
+		c.SetDeadline(time.Now().Add(5 * time.Second))
+		acks := []int{1, -1}[rng.Intn(2)]
+		codec := []kafka.CompressionCodec{nil, kafka.Snappy.Codec(), kafka.Gzip.Codec(), kafka.Lz4.Codec()}[rng.Intn(4)]
+		ver := fmt.Sprintf("/v%d", b.maxProduce)
+		ops := []op{
+			{"Conn.WriteMessages", func() {
+				_, err := c.WriteMessages(kafka.Message{Key: []byte("k"), Value: []byte("w")}, kafka.Message{Value: []byte("x")})
+				ok("Conn.WriteMessages"+ver, err)
+			}},
+			{"Conn.Write", func() { _, err := c.Write([]byte("raw")); ok("Conn.Write"+ver, err) }},
+			{"Conn.WriteCompressedMessagesAt", func() {
+				_, _, _, _, err := c.WriteCompressedMessagesAt(codec, kafka.Message{Value: []byte("wc")}, kafka.Message{Value: []byte("wd")})
+				ok("Conn.WriteCompressedMessagesAt"+ver, err)
+			}},
+			{"Conn.SetRequiredAcks", func() { ok("Conn.SetRequiredAcks", c.SetRequiredAcks(acks)) }},
+			{"Conn.SetRequiredAcks", func() { ok("Conn.SetRequiredAcks", c.SetRequiredAcks(-acks)) }},
+			{"Conn.SetWriteDeadline", func() { c.SetWriteDeadline(time.Now().Add(5 * time.Second)) }},
+			{"Conn.SetDeadline", func() { c.SetDeadline(time.Now().Add(5 * time.Second)) }},
+			{"Conn.Offset", func() { c.Offset() }},
+		}
+		var all []string
+		for _, o := range ops {
+			all = append(all, o.name)
+		}
+		runRound(rng, "connproduce", i, ops, len(ops), len(ops)+3, all...)
+		c.Close()
+	}
+}
+
 func scenConn(rng *rand.Rand, rounds int) {
 	also("Conn.Broker", "Conn.LocalAddr", "Conn.RemoteAddr")
 	also("Conn.Read", "Conn.ReadBatch", "Conn.ReadBatchWith")
@@ -1077,6 +1177,12 @@ func scenConn(rng *rand.Rand, rounds int) {
 	for i := 0; i < rounds; i++ {
 		b := newBroker("t", 1, 16)
 		b.extraRecs = 8
+		// the three produce paths of Conn.writeCompressedMessages: Produce v7, v3 (record batches), v2 (message
+		// sets, what a 0.10.x broker offers)
+		b.maxProduce = []int16{2, 7, 2, 3}[(i+i/4)%4]
+		b.maxFetch = []int16{10, 2, 5}[(i+i/3)%3]
+		b.maxMeta = []int16{6, 1}[(i/2)%2]
+		fv, mv := fmt.Sprintf("/fetch-v%d", b.maxFetch), fmt.Sprintf("/metadata-v%d", b.maxMeta)
 		c := kafka.NewConn(b.dial(), "t", 0)
 		c.SetDeadline(time.Now().Add(5 * time.Second))
 		var bmu sync.Mutex
@@ -1090,6 +1196,7 @@ func scenConn(rng *rand.Rand, rounds int) {
 			return batch
 		}
 		seekTo := int64(rng.Intn(4))
+		acks := []int{1, -1}[rng.Intn(2)]
 		codec := []kafka.CompressionCodec{nil, kafka.Snappy.Codec(), kafka.Gzip.Codec()}[rng.Intn(3)]
 		closeDelay := time.Duration(1+rng.Intn(4)) * time.Millisecond
 		seek := func(name string, off int64, whence int) op {
@@ -1108,7 +1215,7 @@ func scenConn(rng *rand.Rand, rounds int) {
 			seek("End", 1, kafka.SeekEnd),
 			{"Conn.ReadOffsets", func() { _, _, err := c.ReadOffsets(); ok("Conn.ReadOffsets", err) }},
 			{"Conn.ReadOffset", func() { _, err := c.ReadOffset(time.Now()); ok("Conn.ReadOffset", err) }},
-			{"Conn.ReadPartitions", func() { _, err := c.ReadPartitions("t"); ok("Conn.ReadPartitions", err) }},
+			{"Conn.ReadPartitions", func() { _, err := c.ReadPartitions("t"); ok("Conn.ReadPartitions"+mv, err) }},
 			{"Conn.ApiVersions", func() { _, err := c.ApiVersions(); ok("Conn.ApiVersions", err) }},
 			{"Conn.WriteMessages", func() { _, err := c.WriteMessages(kafka.Message{Value: []byte("w")}); ok("Conn.WriteMessages", err) }},
 			{"Conn.Write", func() { _, err := c.Write([]byte("raw")); ok("Conn.Write", err) }},
@@ -1116,8 +1223,8 @@ func scenConn(rng *rand.Rand, rounds int) {
 				_, _, _, _, err := c.WriteCompressedMessagesAt(codec, kafka.Message{Value: []byte("wc")}, kafka.Message{Value: []byte("wd")})
 				ok("Conn.WriteCompressedMessagesAt", err)
 			}},
-			{"Conn.SetRequiredAcks", func() { c.SetRequiredAcks(1) }},
-			{"Conn.ReadMessage", func() { _, err := c.ReadMessage(1 << 16); ok("Conn.ReadMessage", err) }},
+			{"Conn.SetRequiredAcks", func() { ok("Conn.SetRequiredAcks", c.SetRequiredAcks(acks)) }},
+			{"Conn.ReadMessage", func() { _, err := c.ReadMessage(1 << 16); ok("Conn.ReadMessage"+fv, err) }},
 			{"Conn.Brokers", func() { _, err := c.Brokers(); ok("Conn.Brokers", err) }},
 			{"Conn.Controller", func() { _, err := c.Controller(); ok("Conn.Controller", err) }},
 			{"Conn.CreateTopics", func() {
@@ -1126,7 +1233,12 @@ func scenConn(rng *rand.Rand, rounds int) {
 			{"Conn.DeleteTopics", func() { ok("Conn.DeleteTopics", c.DeleteTopics("n")) }},
 			{"Conn.Read", func() { _, err := c.Read(make([]byte, 64)); ok("Conn.Read", err) }},
 			{"Conn.Broker", func() { c.Broker(); c.LocalAddr(); c.RemoteAddr() }},
-			{"Batch.ReadMessage", func() { bt := getBatch(); _, err := bt.ReadMessage(); ok("Batch.ReadMessage", err); bt.ReadMessage() }},
+			{"Batch.ReadMessage", func() {
+				bt := getBatch()
+				_, err := bt.ReadMessage()
+				ok("Batch.ReadMessage"+fv, err)
+				bt.ReadMessage()
+			}},
 			{"Batch.Read", func() { bt := getBatch(); _, err := bt.Read(make([]byte, 2)); ok("Batch.Read", err) }},
 			{"Batch.Err", func() { getBatch().Err() }},
 			{"Batch.Offset", func() { bt := getBatch(); bt.Offset(); bt.HighWaterMark(); bt.Throttle(); bt.Partition() }},
@@ -1403,7 +1515,7 @@ func transportScenario(rng *rand.Rand, rounds int, scen string, useTLS, churn bo
 
 var scenarios = map[string]func(*rand.Rand, int){
 	"balancers": scenBalancers, "writer": scenWriter, "writergrow": scenWriterGrow, "codecfail": scenCodecFail, "codecs": scenCodecs, "readerfront": scenReaderFront,
-	"reader": scenReader, "readergroup": scenReaderGroup, "readerrebalance": scenReaderRebalance, "conn": scenConn, "clientapis": scenClientAPIs, "transport": scenTransport, "transportchurn": scenTransportChurn, "transporttls": scenTransportTLS,
+	"reader": scenReader, "readergroup": scenReaderGroup, "readerrebalance": scenReaderRebalance, "conn": scenConn, "connproduce": scenConnProduce, "clientapis": scenClientAPIs, "transport": scenTransport, "transportchurn": scenTransportChurn, "transporttls": scenTransportTLS,
 }
 
 func main() {
